@@ -1,7 +1,538 @@
 (* C04Proofs.v — lemmas behind props/C04.v *)
-From SV Require Import Base Json MD5 Canon FS Ws CorrC02 CorrC04.
+From SV Require Import Base Json MD5 Canon FS Ws WsLemmas WsInit CorrC02 CorrC04.
 
-Lemma rollback_restores : forall f a t c f1 f2,
-  get f a = Some (File c) -> get f t = None ->
-  rename f a t = FOk f1 -> rename f1 t a = FOk f2 -> fs_eq f2 f.
-Proof. exact rename_file_roundtrip. Qed.
+Lemma SPF_neq_SPT : SPF <> SPT.
+Proof. intro H. apply (f_equal (@length N)) in H. vm_compute in H. discriminate. Qed.
+
+Lemma two_snoc : forall (p : path) a b, p ++ [a; b] = (p ++ [a]) ++ [b].
+Proof. intros. rewrite <- app_assoc. reflexivity. Qed.
+
+(* trees that agree on every path are byte-identical for the oracle *)
+Lemma node_same_refl : forall a, node_same a a = true.
+Proof.
+  destruct a as [[c|]|]; simpl; auto.
+  apply (list_eqb_eq N N.eqb); [intros; apply N.eqb_eq|reflexivity].
+Qed.
+
+Lemma fs_eq_tree_same : forall skip a b, fs_eq a b -> tree_same_except skip a b = true.
+Proof.
+  intros skip a b H. unfold tree_same_except. apply andb_true_iff. split; apply forallb_forall; intros e _;
+    apply orb_true_iff; right; rewrite (H (fst e)); apply node_same_refl.
+Qed.
+
+Section S.
+  Variable frepr : fl -> str.
+
+  (* ---------------------------------------------------------------- re-key *)
+  Lemma rekey_noop : forall susp w ci,
+    calc_id frepr (c_data (getC w ci)) = h_id (getH w (hd 0%nat (c_jobs (getC w ci)))) ->
+    sp_save frepr susp w ci = (w, inl tt).
+  Proof. intros susp w ci H. unfold sp_save. rewrite H, str_eqb_refl. reflexivity. Qed.
+
+  Lemma rekey_conflict : forall susp w ci cf,
+    let c := getC w ci in
+    let h0 := getH w (hd 0%nat (c_jobs c)) in
+    let old := h_id h0 in
+    let new := calc_id frepr (c_data c) in
+    let wsd := wsp (getS w (h_s h0)) in
+    old <> new ->
+    get (w_fs w) (wsd ++ [old; SPF]) = Some (File cf) ->
+    get (w_fs w) (wsd ++ [old; SPT]) = None ->
+    get (w_fs w) (wsd ++ [old]) = Some Dir -> get (w_fs w) wsd = Some Dir ->
+    get (w_fs w) (wsd ++ [new]) = Some Dir -> has_children (w_fs w) (wsd ++ [new]) = true ->
+    exists w', sp_save frepr susp w ci = (w', inr (FExn EDestinationExists)) /\
+      fs_eq (w_fs w') (w_fs w) /\ w_hs w' = w_hs w /\ w_cs w' = w_cs w /\ w_ss w' = w_ss w.
+  Proof.
+    intros susp w ci cf c h0 old new wsd Hne Hfile Htmp Hsrc Hws Hdst Hkids.
+    set (f := w_fs w) in *. set (src := wsd ++ [old]) in *. set (dst := wsd ++ [new]) in *.
+    assert (Efn : wsd ++ [old; SPF] = src ++ [SPF]) by apply two_snoc.
+    assert (Etn : wsd ++ [old; SPT] = src ++ [SPT]) by apply two_snoc.
+    rewrite Efn in Hfile. rewrite Etn in Htmp.
+    set (fname := src ++ [SPF]) in *. set (tmp := src ++ [SPT]) in *.
+    assert (Hft : fname <> tmp).
+    { unfold fname, tmp. intro E. apply snoc_inj in E. exact (SPF_neq_SPT E). }
+    (* forward rename of the state point file *)
+    assert (R1 : exists f1, rename f fname tmp = FOk f1).
+    { unfold rename. rewrite Hfile. unfold tmp at 1. rewrite parent_snoc, Hsrc.
+      apply path_eqb_neq in Hft. rewrite Hft, Htmp. eauto. }
+    destruct R1 as [f1 R1].
+    assert (G1 : forall q, get f1 q = if path_eqb q tmp then Some (File cf) else if path_eqb q fname then None else get f q).
+    { intro q. apply (get_rename_file f fname tmp cf f1 q Hfile Hft R1). }
+    assert (Hout : forall q, under src q = false -> get f1 q = get f q).
+    { intros q Hq. rewrite G1.
+      assert (E1 : path_eqb q tmp = false).
+      { apply path_eqb_neq. intro E. subst q. unfold tmp in Hq. rewrite under_app in Hq. discriminate. }
+      assert (E2 : path_eqb q fname = false).
+      { apply path_eqb_neq. intro E. subst q. unfold fname in Hq. rewrite under_app in Hq. discriminate. }
+      rewrite E1, E2. reflexivity. }
+    assert (Hsd : under src dst = false) by (apply sibling_not_under; exact Hne).
+    assert (Hds : under dst src = false) by (apply sibling_not_under; auto).
+    assert (Hsrc1 : get f1 src = Some Dir).
+    { rewrite G1.
+      assert (E1 : path_eqb src tmp = false) by (apply path_eqb_neq; intro E; symmetry in E; exact (snoc_neq_self _ _ E)).
+      assert (E2 : path_eqb src fname = false) by (apply path_eqb_neq; intro E; symmetry in E; exact (snoc_neq_self _ _ E)).
+      rewrite E1, E2. exact Hsrc. }
+    (* the directory rename fails with ENOTEMPTY *)
+    assert (R2 : rename f1 src dst = FErr ENOTEMPTY).
+    { apply rename_dir_nonempty; auto.
+      - unfold dst. rewrite parent_snoc. rewrite Hout; auto.
+        destruct (under src wsd) eqn:E; auto. apply under_spec in E. destruct E as [r E].
+        unfold src in E. rewrite <- app_assoc in E. rewrite <- (app_nil_r wsd) in E at 1.
+        apply app_inv_head in E. discriminate.
+      - rewrite Hout; auto.
+      - intro E. unfold src, dst in E. apply snoc_inj in E. contradiction.
+      - apply has_children_get. apply has_children_get in Hkids. destruct Hkids as [q [n [Hb Hg]]].
+        exists q, n. split; auto. rewrite Hout; auto.
+        destruct (under src q) eqn:E; auto.
+        destruct (under_comparable src dst q E (below_under _ _ Hb)); congruence. }
+    (* the rollback succeeds and restores the tree *)
+    destruct (rename_file_back_ok f fname tmp cf f1 Hfile Htmp) as [f3 R3]; auto.
+    { unfold fname. rewrite parent_snoc. exact Hsrc. }
+    { unfold fname. rewrite parent_snoc. intro E. symmetry in E. exact (snoc_neq_self _ _ E). }
+    unfold sp_save. fold c. fold h0. fold old. fold new. fold wsd.
+    assert (Hon : str_eqb old new = false) by (apply str_eqb_neq; exact Hne). rewrite Hon.
+    rewrite Efn, Etn. fold src fname tmp f. rewrite R1. simpl w_fs. fold dst. rewrite R2, R3. simpl.
+    eexists. split; [reflexivity|]. split; [|auto].
+    simpl. exact (rename_file_roundtrip f fname tmp cf f1 f3 Hfile Htmp R1 R3).
+  Qed.
+
+  (* ---------------------------------------------------------------- update_statepoint *)
+  Lemma update_statepoint_no_overwrite : forall w h u w1 ci,
+    sp_access frepr w h = (w1, inl ci) -> update_conflict (c_data (getC w1 ci)) u = true ->
+    update_statepoint frepr w h u false = (w1, inr (FExn EKeyError)) /\
+    w_fs w1 = w_fs w /\ w_tr w1 = w_tr w.
+  Proof.
+    intros w h u w1 ci E Hc. unfold update_statepoint. rewrite E, Hc. simpl.
+    pose proof (sp_access_fs frepr w h) as Hf. rewrite E in Hf. simpl in Hf. tauto.
+  Qed.
+
+  (* ---------------------------------------------------------------- move *)
+  Lemma move_uninitialised : forall w h sj w1 ci,
+    sp_access frepr w h = (w1, inl ci) ->
+    get (w_fs w) (wsp (getS w1 sj)) = Some Dir ->
+    get (w_fs w) (jobdir w1 (getH w1 h)) = None ->
+    exists w', move frepr w h sj = (w', inr (FExn ERuntimeError)) /\ w_fs w' = w_fs w /\ w_hs w' = w_hs w1.
+  Proof.
+    intros w h sj w1 ci E Hws Hsrc. unfold move. rewrite E.
+    pose proof (sp_access_fs frepr w h) as Hf. rewrite E in Hf. simpl in Hf. destruct Hf as [Hf _].
+    unfold isdir. rewrite Hf, Hws. simpl w_fs.
+    change (jobdir (set_fs w1 (w_fs w) []) (getH w1 h)) with (jobdir w1 (getH w1 h)).
+    rewrite (rename_missing _ _ _ Hsrc). eexists. split; [reflexivity|]. split; reflexivity.
+  Qed.
+
+  Lemma move_conflict : forall w h sj w1 ci,
+    sp_access frepr w h = (w1, inl ci) ->
+    let src := jobdir w1 (getH w1 h) in
+    let dst := wsp (getS w1 sj) ++ [calc_id frepr (c_data (getC w1 ci))] in
+    get (w_fs w) (wsp (getS w1 sj)) = Some Dir ->
+    get (w_fs w) src = Some Dir -> get (w_fs w) dst = Some Dir -> has_children (w_fs w) dst = true ->
+    src <> dst -> under src dst = false ->
+    exists w', move frepr w h sj = (w', inr (FExn EDestinationExists)) /\ w_fs w' = w_fs w /\ w_hs w' = w_hs w1.
+  Proof.
+    intros w h sj w1 ci E src dst Hws Hsrc Hdst Hkids Hne Hu. unfold move. rewrite E.
+    pose proof (sp_access_fs frepr w h) as Hf. rewrite E in Hf. simpl in Hf. destruct Hf as [Hf _].
+    unfold isdir. rewrite Hf, Hws. simpl w_fs.
+    change (jobdir (set_fs w1 (w_fs w) []) (getH w1 h)) with src. fold dst.
+    rewrite (rename_dir_nonempty (w_fs w) src dst); auto.
+    - eexists. split; [reflexivity|]. split; reflexivity.
+    - unfold dst. rewrite parent_snoc. exact Hws.
+  Qed.
+
+  Lemma move_ok : forall w h sj w1 ci,
+    sp_access frepr w h = (w1, inl ci) ->
+    let src := jobdir w1 (getH w1 h) in
+    let d := c_data (getC w1 ci) in
+    let dst := wsp (getS w1 sj) ++ [calc_id frepr d] in
+    get (w_fs w) (wsp (getS w1 sj)) = Some Dir ->
+    get (w_fs w) src = Some Dir -> src <> dst -> under src dst = false -> under dst src = false ->
+    (get (w_fs w) dst = None \/ get (w_fs w) dst = Some Dir) -> has_children (w_fs w) dst = false ->
+    (h < length (w_hs w))%nat ->
+    exists w', move frepr w h sj = (w', inl tt) /\
+      (forall r, get (w_fs w') (dst ++ r) = get (w_fs w) (src ++ r)) /\     (* everything is carried, byte for byte *)
+      (forall r, get (w_fs w') (src ++ r) = None) /\                          (* the old place is gone *)
+      (forall q, under src q = false -> under dst q = false -> get (w_fs w') q = get (w_fs w) q) /\
+      getH w' h = mkH sj (calc_id frepr d) (Some d) None false.
+  Proof.
+    intros w h sj w1 ci E src d dst Hws Hsrc Hne Hu1 Hu2 Hdst Hkids Hlt. unfold move. rewrite E.
+    pose proof (sp_access_fs frepr w h) as Hf. rewrite E in Hf. simpl in Hf. destruct Hf as [Hf _].
+    unfold isdir. rewrite Hf, Hws. simpl w_fs.
+    change (jobdir (set_fs w1 (w_fs w) []) (getH w1 h)) with src. fold d. fold dst.
+    assert (Hp : get (w_fs w) (parent dst) = Some Dir) by (unfold dst; rewrite parent_snoc; exact Hws).
+    pose proof (rename_dir_ok (w_fs w) src dst Hsrc Hp Hne Hu1 Hu2 Hdst Hkids) as R. rewrite R.
+    eexists. split; [reflexivity|].
+    assert (Hlen : (h < length (w_hs w1))%nat).
+    { pose proof (sp_access_len frepr w h) as Hl. rewrite E in Hl. simpl in Hl. lia. }
+    split; [|split; [|split]].
+    - intro r. simpl. apply (rename_dir_carry (w_fs w) src dst _ r Hsrc Hne R).
+    - intro r. simpl. apply (rename_dir_src_gone (w_fs w) src dst _ r Hsrc Hne R).
+    - intros q H1 H2. simpl. apply (rename_dir_frame (w_fs w) src dst _ q Hsrc Hne R H1 H2).
+    - rewrite getH_register. apply getH_set_H_same. simpl. exact Hlen.
+  Qed.
+
+  (* ---------------------------------------------------------------- clone *)
+  Lemma clone_conflict : forall w sj h w1 ci x,
+    sp_access frepr w h = (w1, inl ci) ->
+    let src := jobdir w1 (getH w1 h) in
+    let wsd := wsp (getS w1 sj) in
+    let dst := wsd ++ [calc_id frepr (c_data (getC w1 ci))] in
+    get (w_fs w) src = Some Dir -> under src dst = false ->
+    (forall k, (k <= length wsd)%nat -> get (w_fs w) (firstn k wsd) = Some Dir) ->
+    get (w_fs w) dst = Some x ->                       (* ANY existing destination, also an empty directory *)
+    clone frepr w sj h = (w1, inr (FExn EDestinationExists)) /\ w_fs w1 = w_fs w.
+  Proof.
+    intros w sj h w1 ci x E src wsd dst Hsrc Hu Hchain Hx. unfold clone. rewrite E.
+    pose proof (sp_access_fs frepr w h) as Hf. rewrite E in Hf. simpl in Hf. destruct Hf as [Hf _].
+    fold src. fold wsd. fold dst. rewrite Hf.
+    unfold dst. rewrite (copytree_exists (w_fs w) src wsd _ x Hsrc Hu Hchain Hx). auto.
+  Qed.
+
+  Lemma clone_uninitialised : forall w sj h w1 ci,
+    sp_access frepr w h = (w1, inl ci) ->
+    get (w_fs w) (jobdir w1 (getH w1 h)) = None ->
+    clone frepr w sj h = (w1, inr (FExn EValueError)) /\ w_fs w1 = w_fs w.
+  Proof.
+    intros w sj h w1 ci E Hsrc. unfold clone. rewrite E.
+    pose proof (sp_access_fs frepr w h) as Hf. rewrite E in Hf. simpl in Hf. destruct Hf as [Hf _].
+    rewrite Hf, (copytree_missing _ _ _ Hsrc). auto.
+  Qed.
+
+  Lemma clone_ok : forall w sj h w1 ci,
+    sp_access frepr w h = (w1, inl ci) ->
+    let src := jobdir w1 (getH w1 h) in
+    let wsd := wsp (getS w1 sj) in
+    let d := c_data (getC w1 ci) in
+    let dst := wsd ++ [calc_id frepr d] in
+    get (w_fs w) src = Some Dir -> under src dst = false -> under dst src = false ->
+    (forall k, (k <= length wsd)%nat -> get (w_fs w) (firstn k wsd) = Some Dir) ->
+    (forall q, under dst q = true -> get (w_fs w) q = None) ->        (* nothing at the destination *)
+    exists w' hn, clone frepr w sj h = (w', inl hn) /\
+      get (w_fs w') dst = Some Dir /\
+      (forall x r, get (w_fs w') (dst ++ x :: r) = get (w_fs w) (src ++ x :: r)) /\   (* identical copy *)
+      (forall q, under dst q = false -> get (w_fs w') q = get (w_fs w) q) /\          (* source and all else untouched *)
+      getH w' hn = mkH sj (calc_id frepr d) (Some d) None false /\ hn = length (w_hs w1).
+  Proof.
+    intros w sj h w1 ci E src wsd d dst Hsrc Hu1 Hu2 Hchain Hfree. unfold clone. rewrite E.
+    pose proof (sp_access_fs frepr w h) as Hf. rewrite E in Hf. simpl in Hf. destruct Hf as [Hf _].
+    fold src. fold wsd. fold d. fold dst. rewrite Hf.
+    assert (Hn : get (w_fs w) dst = None) by (apply Hfree, under_refl).
+    destruct (copytree (w_fs w) src dst) as [f2|e] eqn:Ec.
+    - pose proof (fun q => get_copytree (w_fs w) src wsd _ f2 q Hsrc Hu1 Hu2 Hchain Hn Ec) as G. fold dst in G.
+      eexists _, _. split; [reflexivity|]. simpl w_fs.
+      split; [|split; [|split; [|split]]].
+      + rewrite G. assert (Hs : strip dst dst = Some []) by (apply strip_spec; rewrite app_nil_r; reflexivity).
+        rewrite Hs. reflexivity.
+      + intros x r. rewrite G, strip_app.
+        destruct (get (w_fs w) (src ++ x :: r)) eqn:Eg; auto. apply Hfree. apply under_app.
+      + intros q Hq. rewrite G. unfold under in Hq. destruct (strip dst q); [discriminate|reflexivity].
+      + unfold getH, add_H. simpl. apply nth_app_new.
+      + reflexivity.
+    - exfalso. unfold copytree in Ec. rewrite Hsrc, Hu1 in Ec. unfold makedirs_new in Ec.
+      unfold dst in Ec. rewrite (makedirs_from_leaf_new wsd (w_fs w) [] _) in Ec; [discriminate| |exact Hn].
+      intros k Hk. simpl. apply Hchain. lia.
+  Qed.
+
+  (* ---------------------------------------------------------------- set_ids *)
+  Lemma set_ids_frame : forall js w i,
+    w_fs (set_ids w js i) = w_fs w /\ w_ss (set_ids w js i) = w_ss w /\ w_cs (set_ids w js i) = w_cs w
+    /\ w_tr (set_ids w js i) = w_tr w /\ length (w_hs (set_ids w js i)) = length (w_hs w).
+  Proof.
+    induction js as [|j js IH]; intros w i; simpl; [auto 6|].
+    destruct (IH (set_H w j (mkH (h_s (getH w j)) i (h_cached (getH w j)) (h_cell (getH w j)) (h_dk (getH w j)))) i)
+      as [H1 [H2 [H3 [H4 H5]]]].
+    rewrite H1, H2, H3, H4, H5. simpl. rewrite length_set_nth. auto 6.
+  Qed.
+
+  Lemma set_ids_fields : forall js w i k,
+    h_s (getH (set_ids w js i) k) = h_s (getH w k) /\ h_cell (getH (set_ids w js i) k) = h_cell (getH w k)
+    /\ h_cached (getH (set_ids w js i) k) = h_cached (getH w k) /\ h_dk (getH (set_ids w js i) k) = h_dk (getH w k).
+  Proof.
+    induction js as [|j js IH]; intros w i k; simpl; [auto|].
+    destruct (IH (set_H w j (mkH (h_s (getH w j)) i (h_cached (getH w j)) (h_cell (getH w j)) (h_dk (getH w j)))) i k)
+      as [H1 [H2 [H3 H4]]].
+    rewrite H1, H2, H3, H4. unfold getH, set_H. simpl.
+    repeat split; apply (nth_set_nth_proj handle); reflexivity.
+  Qed.
+
+  Lemma set_ids_notin : forall js w i k, ~ In k js -> h_id (getH (set_ids w js i) k) = h_id (getH w k).
+  Proof.
+    induction js as [|j js IH]; intros w i k Hn; simpl; [reflexivity|].
+    rewrite IH by (intro H; apply Hn; simpl; auto).
+    rewrite getH_set_H_other; [reflexivity|]. intro E. apply Hn. simpl. auto.
+  Qed.
+
+  Lemma set_ids_in : forall js w i k, In k js -> (k < length (w_hs w))%nat -> h_id (getH (set_ids w js i) k) = i.
+  Proof.
+    induction js as [|j js IH]; intros w i k Hin Hlt; simpl; [contradiction|].
+    destruct (in_dec Nat.eq_dec k js) as [Hk|Hk].
+    - apply IH; auto. simpl. rewrite length_set_nth. exact Hlt.
+    - destruct Hin as [->|Hin]; [|contradiction].
+      rewrite set_ids_notin by exact Hk. rewrite getH_set_H_same by exact Hlt. reflexivity.
+  Qed.
+
+  (* ---------------------------------------------------------------- the successful re-key *)
+  Lemma rekey_ok : forall w ci cf,
+    let c := getC w ci in
+    let js := c_jobs c in
+    let h0 := getH w (hd 0%nat js) in
+    let old := h_id h0 in
+    let new := calc_id frepr (c_data c) in
+    let wsd := wsp (getS w (h_s h0)) in
+    let src := wsd ++ [old] in
+    let dst := wsd ++ [new] in
+    old <> new ->
+    js <> [] ->
+    (forall j, In j js -> (j < length (w_hs w))%nat /\ h_cell (getH w j) = Some ci /\ h_s (getH w j) = h_s h0) ->
+    get (w_fs w) (src ++ [SPF]) = Some (File cf) ->
+    get (w_fs w) (src ++ [SPT]) = None -> get (w_fs w) (src ++ [TMPPFX ++ SPF]) = None ->
+    get (w_fs w) src = Some Dir -> get (w_fs w) wsd = Some Dir ->
+    (get (w_fs w) dst = None \/ get (w_fs w) dst = Some Dir) -> has_children (w_fs w) dst = false ->
+    exists w', sp_save frepr false w ci = (w', inl tt) /\
+      (forall r, get (w_fs w') (src ++ r) = None) /\
+      get (w_fs w') dst = Some Dir /\
+      get (w_fs w') (dst ++ [SPF]) = Some (File (sp_content frepr (c_data c))) /\
+      get (w_fs w') (dst ++ [SPT]) = None /\
+      (forall x r, x :: r <> [SPF] -> x :: r <> [SPT] -> get (w_fs w') (dst ++ x :: r) = get (w_fs w) (src ++ x :: r)) /\
+      (forall q, under src q = false -> under dst q = false -> get (w_fs w') q = get (w_fs w) q) /\
+      (forall j, In j js -> h_id (getH w' j) = new /\ h_s (getH w' j) = h_s h0) /\
+      (forall k, h_cached (getH w' k) = h_cached (getH w k)).
+  Proof.
+    intros w ci cf c js h0 old new wsd src dst Hne Hjs Hall Hfile Htmp Htmp2 Hsrc Hws Hdst Hkids.
+    set (f := w_fs w) in *.
+    set (fname := src ++ [SPF]) in *. set (tmp := src ++ [SPT]) in *.
+    assert (Hft : fname <> tmp).
+    { unfold fname, tmp. intro E. apply snoc_inj in E. exact (SPF_neq_SPT E). }
+    assert (R1 : exists f1, rename f fname tmp = FOk f1).
+    { unfold rename. rewrite Hfile. unfold tmp at 1. rewrite parent_snoc, Hsrc.
+      apply path_eqb_neq in Hft. rewrite Hft, Htmp. eauto. }
+    destruct R1 as [f1 R1].
+    assert (G1 : forall q, get f1 q = if path_eqb q tmp then Some (File cf) else if path_eqb q fname then None else get f q).
+    { intro q. apply (get_rename_file f fname tmp cf f1 q Hfile Hft R1). }
+    assert (Hout : forall q, under src q = false -> get f1 q = get f q).
+    { intros q Hq. rewrite G1.
+      assert (E1 : path_eqb q tmp = false).
+      { apply path_eqb_neq. intro E. subst q. unfold tmp in Hq. rewrite under_app in Hq. discriminate. }
+      assert (E2 : path_eqb q fname = false).
+      { apply path_eqb_neq. intro E. subst q. unfold fname in Hq. rewrite under_app in Hq. discriminate. }
+      rewrite E1, E2. reflexivity. }
+    assert (Hsd : under src dst = false) by (apply sibling_not_under; exact Hne).
+    assert (Hds : under dst src = false) by (apply sibling_not_under; auto).
+    assert (Hsrc_ne_dst : src <> dst) by (intro E; unfold src, dst in E; apply snoc_inj in E; contradiction).
+    assert (Hsrc1 : get f1 src = Some Dir).
+    { rewrite G1.
+      assert (E1 : path_eqb src tmp = false) by (apply path_eqb_neq; intro E; symmetry in E; exact (snoc_neq_self _ _ E)).
+      assert (E2 : path_eqb src fname = false) by (apply path_eqb_neq; intro E; symmetry in E; exact (snoc_neq_self _ _ E)).
+      rewrite E1, E2. exact Hsrc. }
+    assert (Hwsd_out : under src wsd = false).
+    { destruct (under src wsd) eqn:E; auto. apply under_spec in E. destruct E as [r E].
+      unfold src in E. rewrite <- app_assoc in E. rewrite <- (app_nil_r wsd) in E at 1.
+      apply app_inv_head in E. discriminate. }
+    (* the directory rename succeeds *)
+    assert (R2 : rename f1 src dst = FOk (move_tree src dst (del_under dst f1))).
+    { apply rename_dir_ok; auto.
+      - unfold dst. rewrite parent_snoc, Hout; auto.
+      - rewrite Hout by exact Hsd. exact Hdst.
+      - destruct (has_children f1 dst) eqn:Ek; auto. exfalso.
+        apply has_children_get in Ek. destruct Ek as [q [n [Hb Hg]]].
+        assert (Hq : under src q = false).
+        { destruct (under src q) eqn:E; auto.
+          destruct (under_comparable src dst q E (below_under _ _ Hb)); congruence. }
+        rewrite Hout in Hg by exact Hq.
+        assert (Hk : has_children f dst = true) by (apply has_children_get; eauto). congruence. }
+    set (f2 := move_tree src dst (del_under dst f1)) in *.
+    assert (G2 : forall q, get f2 q = match strip dst q with
+                                       | Some r => get f1 (src ++ r)
+                                       | None => if under src q then None else get f1 q end).
+    { intro q. apply (get_rename_dir f1 src dst f2 q Hsrc1 Hsrc_ne_dst R2). }
+    (* run sp_save up to the unlink *)
+    unfold sp_save. fold c. fold js. fold h0. fold old. fold new. fold wsd.
+    assert (Hon : str_eqb old new = false) by (apply str_eqb_neq; exact Hne). rewrite Hon.
+    rewrite !two_snoc. fold src dst fname tmp f. rewrite R1. simpl w_fs. rewrite R2.
+    set (wa := set_fs (set_fs w f1 [EvRename fname tmp]) f2 [EvRename src dst]).
+    set (w2 := set_ids wa js new).
+    destruct (set_ids_frame js wa new) as [F1 [F2 [F3 [F4 F5]]]]. fold w2 in F1, F2, F3, F4, F5.
+    set (tmp' := dst ++ [SPT]).
+    assert (Htmp'2 : get f2 tmp' = Some (File cf)).
+    { rewrite G2. unfold tmp'. rewrite strip_app. fold tmp. rewrite G1, path_eqb_refl. reflexivity. }
+    assert (U : unlink (w_fs w2) tmp' = FOk (remove tmp' f2)).
+    { rewrite F1. simpl. unfold unlink. rewrite Htmp'2. reflexivity. }
+    rewrite U.
+    set (f3 := remove tmp' f2).
+    assert (G3 : forall q, get f3 q = if path_eqb q tmp' then None else get f2 q).
+    { intro q. apply (get_unlink f2 tmp' f3 q). unfold unlink. rewrite Htmp'2. reflexivity. }
+    set (w3 := set_fs w2 f3 [EvUnlink tmp']).
+    (* re-initialisation through the last handle of the cell *)
+    set (hl := last js 0%nat).
+    assert (Hl_in : In hl js).
+    { unfold hl. destruct js as [|j0 js0]; [contradiction|]. apply exists_last in Hjs || idtac.
+      clear. assert (H : j0 :: js0 <> []) by discriminate. destruct (exists_last H) as [l' [a E]].
+      rewrite E. rewrite last_last. apply in_or_app. right. simpl. auto. }
+    destruct (Hall hl Hl_in) as [Hl_lt [Hl_cell Hl_s]].
+    assert (Hh3 : forall k, h_s (getH w3 k) = h_s (getH w k) /\ h_cell (getH w3 k) = h_cell (getH w k)).
+    { intro k. unfold w3. rewrite getH_set_fs. unfold w2.
+      destruct (set_ids_fields js wa new k) as [A [B _]]. rewrite A, B. auto. }
+    assert (Hid3 : forall j, In j js -> h_id (getH w3 j) = new).
+    { intros j Hj. unfold w3. rewrite getH_set_fs. unfold w2. apply set_ids_in; auto.
+      destruct (Hall j Hj) as [Hlt _]. exact Hlt. }
+    assert (E3 : sp_access frepr w3 hl = (w3, inl ci)).
+    { apply sp_access_idem. destruct (Hh3 hl) as [_ B]. rewrite B. exact Hl_cell. }
+    assert (Hws3 : wsp (getS w3 (h_s (getH w3 hl))) = wsd).
+    { destruct (Hh3 hl) as [A _]. rewrite A, Hl_s. unfold wsd, wsp, getS, w3. simpl. rewrite F2. reflexivity. }
+    assert (Hlt3 : (hl < length (w_hs w3))%nat) by (unfold w3; simpl; rewrite F5; simpl; exact Hl_lt).
+    assert (Hd3 : c_data (getC w3 ci) = c_data c).
+    { unfold w3. rewrite getC_set_fs. unfold getC. rewrite F3. reflexivity. }
+    pose proof (init_writes frepr w3 hl w3 ci (c_data c) Hlt3 E3 Hd3) as IW.
+    cbv zeta in IW. rewrite (Hid3 hl Hl_in), Hws3 in IW. fold dst in IW.
+    change (w_fs w3) with f3 in IW.
+    destruct IW as [w' [Hi [G [Hids _]]]]; [reflexivity| | | |].
+    { change (wsd ++ [new]) with dst. rewrite G3, G2, strip_app. fold fname.
+      assert (E : path_eqb (dst ++ [SPF]) tmp' = false).
+      { apply path_eqb_neq. unfold tmp'. intro E. apply snoc_inj in E. exact (SPF_neq_SPT E). }
+      rewrite E, G1, path_eqb_refl.
+      assert (E' : path_eqb fname tmp = false) by (apply path_eqb_neq; exact Hft). rewrite E'. reflexivity. }
+    { change (wsd ++ [new]) with dst. rewrite G3, G2, strip_app.
+      assert (E : path_eqb (dst ++ [TMPPFX ++ SPF]) tmp' = false).
+      { apply path_eqb_neq. unfold tmp'. intro E. apply snoc_inj in E.
+        apply (f_equal (@length N)) in E. vm_compute in E. discriminate. }
+      rewrite E, G1.
+      assert (E1 : path_eqb (src ++ [TMPPFX ++ SPF]) tmp = false).
+      { apply path_eqb_neq. unfold tmp. intro E1. apply snoc_inj in E1.
+        apply (f_equal (@length N)) in E1. vm_compute in E1. discriminate. }
+      assert (E2 : path_eqb (src ++ [TMPPFX ++ SPF]) fname = false).
+      { apply path_eqb_neq. unfold fname. intro E2. apply snoc_inj in E2. exact (tmp_name_neq SPF E2). }
+      rewrite E1, E2. exact Htmp2. }
+    { left. change (wsd ++ [new]) with dst. rewrite G3, G2.
+      assert (E : path_eqb dst tmp' = false) by (apply path_eqb_neq; intro E; symmetry in E; exact (snoc_neq_self _ _ E)).
+      assert (Hs : strip dst dst = Some []) by (apply strip_spec; rewrite app_nil_r; reflexivity).
+      rewrite E, Hs, app_nil_r. exact Hsrc1. }
+    (* assemble *)
+    assert (Hlast : last (c_jobs c) 0%nat = hl) by reflexivity.
+    exists w'. split; [exact Hi|].
+    assert (Gq : forall q, get (w_fs w') q =
+              if path_eqb q (dst ++ [SPF]) then Some (File (sp_content frepr (c_data c)))
+              else if path_eqb q dst then Some Dir else get f3 q) by exact G.
+    split; [|split; [|split; [|split; [|split; [|split; [|split]]]]]].
+    - intro r. rewrite Gq.
+      assert (Hu : under dst (src ++ r) = false).
+      { destruct (under dst (src ++ r)) eqn:E; auto.
+        destruct (under_comparable src dst (src ++ r) (under_app src r) E); congruence. }
+      assert (E1 : path_eqb (src ++ r) (dst ++ [SPF]) = false).
+      { apply path_eqb_neq. intro E. rewrite E, under_app in Hu. discriminate. }
+      assert (E2 : path_eqb (src ++ r) dst = false).
+      { apply path_eqb_neq. intro E. rewrite E, under_refl in Hu. discriminate. }
+      assert (E3' : path_eqb (src ++ r) tmp' = false).
+      { apply path_eqb_neq. intro E. unfold tmp' in E. rewrite E, under_app in Hu. discriminate. }
+      rewrite E1, E2, G3, E3', G2. unfold under in Hu. destruct (strip dst (src ++ r)); [discriminate|].
+      rewrite under_app. reflexivity.
+    - rewrite Gq.
+      assert (E1 : path_eqb dst (dst ++ [SPF]) = false) by (apply path_eqb_neq; intro E; symmetry in E; exact (snoc_neq_self _ _ E)).
+      rewrite E1, path_eqb_refl. reflexivity.
+    - rewrite Gq, path_eqb_refl. reflexivity.
+    - rewrite Gq.
+      assert (E1 : path_eqb tmp' (dst ++ [SPF]) = false).
+      { apply path_eqb_neq. unfold tmp'. intro E. apply snoc_inj in E. symmetry in E. exact (SPF_neq_SPT E). }
+      assert (E2 : path_eqb tmp' dst = false) by (apply path_eqb_neq, snoc_neq_self).
+      rewrite E1, E2, G3. rewrite path_eqb_refl. reflexivity.
+    - intros x r Hx1 Hx2. rewrite Gq.
+      assert (E1 : path_eqb (dst ++ x :: r) (dst ++ [SPF]) = false).
+      { apply path_eqb_neq. intro E. apply app_inv_head in E. contradiction. }
+      assert (E2 : path_eqb (dst ++ x :: r) dst = false).
+      { apply path_eqb_neq. intro E. rewrite <- (app_nil_r dst) in E at 2. apply app_inv_head in E. discriminate. }
+      assert (E3' : path_eqb (dst ++ x :: r) tmp' = false).
+      { apply path_eqb_neq. unfold tmp'. intro E. apply app_inv_head in E. contradiction. }
+      rewrite E1, E2, G3, E3', G2, strip_app, G1.
+      assert (E4 : path_eqb (src ++ x :: r) tmp = false).
+      { apply path_eqb_neq. unfold tmp. intro E. apply app_inv_head in E. contradiction. }
+      assert (E5 : path_eqb (src ++ x :: r) fname = false).
+      { apply path_eqb_neq. unfold fname. intro E. apply app_inv_head in E. contradiction. }
+      rewrite E4, E5. reflexivity.
+    - intros q Hq1 Hq2. rewrite Gq.
+      assert (E1 : path_eqb q (dst ++ [SPF]) = false).
+      { apply path_eqb_neq. intro E. rewrite E, under_app in Hq2. discriminate. }
+      assert (E2 : path_eqb q dst = false).
+      { apply path_eqb_neq. intro E. rewrite E, under_refl in Hq2. discriminate. }
+      assert (E3' : path_eqb q tmp' = false).
+      { apply path_eqb_neq. intro E. unfold tmp' in E. rewrite E, under_app in Hq2. discriminate. }
+      rewrite E1, E2, G3, E3', G2. unfold under in Hq2. destruct (strip dst q) eqn:Es; [discriminate|].
+      rewrite Hq1. apply Hout. exact Hq1.
+    - intros j Hj. destruct (Hids j) as [A [B _]]. rewrite A, B. split; [apply Hid3; exact Hj|].
+      destruct (Hh3 j) as [C _]. rewrite C. destruct (Hall j Hj) as [_ [_ D]]. exact D.
+    - intro k. destruct (Hids k) as [_ [_ C]]. rewrite C. unfold w3. rewrite getH_set_fs. unfold w2.
+      destruct (set_ids_fields js wa new k) as [_ [_ [D _]]]. rewrite D. reflexivity.
+  Qed.
+
+  (* ---------------------------------------------------------------- licence for the correspondence (conflict clause) *)
+  Lemma conflict_oracle_clause : forall susp w ci cf,
+    let c := getC w ci in
+    let h0 := getH w (hd 0%nat (c_jobs c)) in
+    let old := h_id h0 in
+    let new := calc_id frepr (c_data c) in
+    let wsd := wsp (getS w (h_s h0)) in
+    old <> new ->
+    get (w_fs w) (wsd ++ [old; SPF]) = Some (File cf) ->
+    get (w_fs w) (wsd ++ [old; SPT]) = None ->
+    get (w_fs w) (wsd ++ [old]) = Some Dir -> get (w_fs w) wsd = Some Dir ->
+    get (w_fs w) (wsd ++ [new]) = Some Dir -> has_children (w_fs w) (wsd ++ [new]) = true ->
+    let '(w', r) := sp_save frepr susp w ci in
+    out_unit r = VExn EDestinationExists /\ tree_same_except [] (w_fs w) (w_fs w') = true.
+  Proof.
+    intros susp w ci cf c h0 old new wsd H1 H2 H3 H4 H5 H6 H7.
+    destruct (rekey_conflict susp w ci cf H1 H2 H3 H4 H5 H6 H7) as [w' [E [Hfs _]]].
+    fold c h0 old new wsd in E. rewrite E. split; [reflexivity|].
+    apply fs_eq_tree_same. apply fs_eq_sym. exact Hfs.
+  Qed.
+
+End S.
+
+(* ------------------------------------------------------------------ concrete witnesses of the defects *)
+Definition wfr (f : fl) : str := [].
+Definition kA : str := [97%N].
+Definition wA : path := [[65%N]].
+
+(* F11: after a successful re-key the handle's cached_statepoint is still the old state point *)
+Lemma cached_stale_witness :
+  let old := JObj [(kA, JInt 0)] in let new := JObj [(kA, JInt 1)] in
+  run wfr w0 0 [ONewSession wA; OOpenSp 0 old; OInit 0 false; OEdit 0 [] (ESetKey kA (JInt 1));
+                OIdPath 0; OSp 0; OCached 0]
+  = [VUnit; VStr (calc_id wfr old); VUnit; VUnit;
+     VIdPath (calc_id wfr new) (wA ++ [WS; calc_id wfr new]); VJson new; VJson old].
+Proof. vm_compute. reflexivity. Qed.
+
+(* a shallow copy taken before the state point was ever accessed does not follow the re-key *)
+Lemma early_copy_witness :
+  let old := JObj [(kA, JInt 0)] in let new := JObj [(kA, JInt 1)] in
+  run wfr w0 0 [ONewSession wA; OOpenSp 0 old; OInit 0 false; ONewSession wA; OOpenId 1 (calc_id wfr old);
+                OCopy 1; OEdit 1 [] (ESetKey kA (JInt 1)); OIdPath 1; OIdPath 2]
+  = [VUnit; VStr (calc_id wfr old); VUnit; VUnit; VStr (calc_id wfr old); VStr (calc_id wfr old); VUnit;
+     VIdPath (calc_id wfr new) (wA ++ [WS; calc_id wfr new]);
+     VIdPath (calc_id wfr old) (wA ++ [WS; calc_id wfr old])].
+Proof. vm_compute. reflexivity. Qed.
+
+(* whole assignment of a value that compares == in Python is dropped: id, file and statepoint() stay *)
+Lemma assign_drop_witness :
+  let old := JObj [(kA, JInt 1)] in let new := JObj [(kA, JBool true)] in
+  calc_id wfr old <> calc_id wfr new /\
+  run wfr w0 0 [ONewSession wA; OOpenSp 0 old; OInit 0 false; OAssign 0 new; OIdPath 0; OSp 0; OIds 0]
+  = [VUnit; VStr (calc_id wfr old); VUnit; VUnit;
+     VIdPath (calc_id wfr old) (wA ++ [WS; calc_id wfr old]); VJson old; VStrs [calc_id wfr old]].
+Proof. split; [vm_compute; discriminate|vm_compute; reflexivity]. Qed.
+
+(* whole assignment that changes a list in place: JobsCorruptedError, and the job directory ends up under
+   the new id with no state point file at all *)
+Lemma assign_list_witness :
+  let old := JObj [(kA, JArr [JInt 1; JInt 2])] in let new := JObj [(kA, JArr [JInt 1; JInt 3])] in
+  let w := fst (fst (fold_left (fun st o => fst (step wfr (fst (fst st)) (snd (fst st)) o, VUnit))
+                               [ONewSession wA; OOpenSp 0 old; OInit 0 false; OAssign 0 new] (w0, 0%nat, VUnit))) in
+  run wfr w0 0 [ONewSession wA; OOpenSp 0 old; OInit 0 false; OAssign 0 new; OIds 0]
+  = [VUnit; VStr (calc_id wfr old); VUnit; VExn EJobsCorrupted; VStrs [calc_id wfr new]]
+  /\ get (w_fs w) (wA ++ [WS; calc_id wfr new]) = Some Dir
+  /\ get (w_fs w) (wA ++ [WS; calc_id wfr new; SPF]) = None
+  /\ get (w_fs w) (wA ++ [WS; calc_id wfr new; SPT]) = None
+  /\ get (w_fs w) (wA ++ [WS; calc_id wfr old]) = None.
+Proof. vm_compute. repeat split; reflexivity. Qed.
+
+(* the world reached by a list of operations (observations dropped) *)
+Fixpoint exec (fr : fl -> str) (w : world) (q : nat) (ops : list op) : world :=
+  match ops with
+  | [] => w
+  | o :: r => let '(w1, q1, _) := step fr w q o in exec fr w1 q1 r
+  end.
